@@ -4,6 +4,7 @@ import (
 	"bytes"
 	"fmt"
 	"os"
+	"strings"
 	"time"
 
 	"github.com/anishathalye/porcupine"
@@ -59,6 +60,17 @@ type concExec struct {
 	injReq   bool
 	injBusy  bool
 	injVal   []byte // bytes of the record the pass is relocating (for an injected same-value revision bump)
+	// slow reader placed in GC's window: a get of the key being relocated looks the key up in the
+	// index (old position), is then stalled while the pass repoints the key and goes on, and
+	// reads the data file afterwards
+	slowKey     int  // -1: no request
+	slowStalled bool // the reader has reached its data read and is stalled (or is done)
+	slowN       int
+	gcWrites    int64 // data-file writes issued by GC passes so far
+	slowPath    string // data file and offset of the record the slow reader looked up
+	slowOff     int64
+	slowCovered bool   // the pass has written a record over that position
+	slowCoverNext bool
 }
 
 func (x *concExec) fail(rule, sub, msg string) {
@@ -120,8 +132,18 @@ func genConcPlan(prop string, seed uint64, tier string) *Plan {
 			c.DataFileMax = c.BodyMax + r.Pick64(1024, 2048)
 		}
 	}
+	// wide layout (C05): more keys, files of 16..32 one-block records with garbage and live
+	// records interleaved, so that an in-place pass slides *other* keys' records over the old
+	// position of a record it has just moved (what a reader holding that old position then finds)
+	wide := prop == "C05" && r.Bool(1, 3)
+	if wide {
+		c.DataFileMax = r.Pick64(4096, 8192)
+	}
 	c.normalize()
 	nKeys := r.Range(2, 6)
+	if wide {
+		nKeys = r.Range(10, 20)
+	}
 	p.Keys = genKeys(r, c, nKeys, 0)
 	nClients := r.Range(2, 16)
 	if prop == "C05" {
@@ -136,10 +158,16 @@ func genConcPlan(prop string, seed uint64, tier string) *Plan {
 	// preload (sequential, before the concurrent phase)
 	if prop == "C05" || prop == "C17" {
 		n := r.Range(6, 30)
+		if wide {
+			n = r.Range(20, 50)
+		}
 		for i := 0; i < n; i++ {
 			id++
 			op := Op{ID: id, Kind: "set", K: r.Intn(len(p.Keys))}
 			op.V = ValSpec{Class: r.Pick(VConst, VText, VRandom), Len: r.Pick(10, 100, 200, 250, int(c.BodyMax) - 1), Seed: uint32(r.U64())}
+			if wide {
+				op.V.Len = r.Pick(10, 60, 150)
+			}
 			if r.Bool(1, 5) {
 				op.Kind = "del"
 			}
@@ -267,11 +295,17 @@ func (x *concExec) tick() int64 { x.seq++; return x.seq }
 // may be placed right there: the pass is parked until the injector task has finished the write.
 // A legal schedule, chosen deliberately instead of waiting for the random walk to find it.
 func (x *concExec) maybeInject(g *Gen, ev *simrt.FSEvent) {
-	if x.injBusy || x.injNext >= len(x.injOps) || ev.Tag != "gc" || ev.Kind != simrt.FSWrite || len(ev.Data) < recHdr {
+	if x.injBusy || ev.Tag != "gc" || ev.Kind != simrt.FSWrite || len(ev.Data) < recHdr {
 		return
 	}
 	if len(ev.Path) < 5 || ev.Path[len(ev.Path)-5:] != ".data" {
 		return
+	}
+	x.gcWrites++
+	if x.slowPath != "" {
+		// (the previous event's write is on disk by now)
+		x.slowCovered = x.slowCovered || x.slowCoverNext
+		x.slowCoverNext = ev.Path == x.slowPath && ev.Off <= x.slowOff && ev.Off+int64(len(ev.Data)) > x.slowOff
 	}
 	rec, ok := refDecodeAt(ev.Data, 0, 250, 1<<22)
 	if !ok {
@@ -283,7 +317,27 @@ func (x *concExec) maybeInject(g *Gen, ev *simrt.FSEvent) {
 			k = i
 		}
 	}
-	if k < 0 || g.W.Choose(simrt.StreamFault, 3) != 1 {
+	if k < 0 {
+		return
+	}
+	c := g.W.Choose(simrt.StreamFault, 3)
+	if c == 2 && x.plan.Prop != "C17" && x.slowN < 8 && x.slowKey < 0 {
+		// place a slow reader instead of a write
+		x.injBusy = true
+		x.slowN++
+		x.slowStalled = false
+		x.slowPath, x.slowCovered, x.slowCoverNext = "", false, false
+		if _, pos, err := g.H.Get(&store.KeyInfo{Key: x.plan.Keys[k], StringKey: string(x.plan.Keys[k])}, true); err == nil {
+			// where the index points now = what the reader is going to look up
+			x.slowPath = fmt.Sprintf("%s/%03d.data", x.sim.bucketDir(x.plan.Cfg.Served[0]), pos.ChunkID)
+			x.slowOff = int64(pos.Offset)
+		}
+		x.slowKey = k
+		g.W.WaitCond("gc-parked-for-slow-reader", func() bool { return x.slowStalled })
+		x.injBusy = false
+		return
+	}
+	if c != 1 || x.injNext >= len(x.injOps) {
 		return
 	}
 	x.injBusy = true
@@ -405,7 +459,7 @@ func runConc(plan *Plan, tape *simrt.Tape) *Outcome {
 	dir := mkWorldDir()
 	defer os.RemoveAll(dir)
 	sim := NewSim(plan.Cfg, dir, tape)
-	x := &concExec{plan: plan, out: out, sim: sim, vals: map[string]int{}, valOf: map[int][]byte{}, keyOfW: map[int]int{}, lastFS: map[int]int64{}}
+	x := &concExec{plan: plan, out: out, sim: sim, vals: map[string]int{}, valOf: map[int][]byte{}, keyOfW: map[int]int{}, lastFS: map[int]int64{}, slowKey: -1}
 	sim.OnFS = func(g *Gen, ev *simrt.FSEvent) {
 		x.lastFS[ev.Task] = ev.Step
 		x.maybeInject(g, ev)
@@ -419,12 +473,28 @@ func runConc(plan *Plan, tape *simrt.Tape) *Outcome {
 				x.vals[string(v)] = op.ID
 				x.keyOfW[op.ID] = op.K
 			}
-			if op.Kind == "bump" {
-				x.valOf[op.ID] = makeValue(op.V, op.vid()) // the bytes of write #VID again
-				x.keyOfW[op.ID] = op.K
-			}
 			if op.Kind == "iset" || op.Kind == "idel" || op.Kind == "ibump" {
 				x.injOps = append(x.injOps, op)
+			}
+		}
+	}
+	for _, l := range all {
+		for _, op := range l {
+			if op.Kind == "bump" {
+				// the bytes of write #VID again. They are taken from that write (not from this
+				// op's own value spec, which the minimiser may have simplified independently);
+				// if the write no longer exists in a minimised plan the bump defines the bytes
+				v, ok := x.valOf[op.VID]
+				if !ok || x.keyOfW[op.VID] != op.K {
+					v = makeValue(op.V, op.vid())
+					if _, taken := x.vals[string(v)]; !taken && !ok {
+						x.valOf[op.VID] = v
+						x.vals[string(v)] = op.VID
+						x.keyOfW[op.VID] = op.K
+					}
+				}
+				x.valOf[op.ID] = v
+				x.keyOfW[op.ID] = op.K
 			}
 		}
 	}
@@ -449,6 +519,22 @@ func runConc(plan *Plan, tape *simrt.Tape) *Outcome {
 			w.WaitIdle()
 			g.H.VerifFlush(true)
 			w.WaitIdle()
+		}
+		if den := plan.Cfg.StallDen; den > 0 {
+			// stalled-thread fault: a client (or the GC pass) is descheduled for a drawn, long
+			// number of steps at a function entry of package store, e.g. between its index
+			// lookup and its data read, while everybody else keeps running
+			w.StallHook = func(site string) int64 {
+				name := w.CurName()
+				if !strings.HasPrefix(name, "client") && name != "store.gcMgr.gc" {
+					return 0
+				}
+				if w.Choose(simrt.StreamFault, den) != den-1 {
+					return 0
+				}
+				x.out.probe("fault:task-stalled-at-function-entry")
+				return int64([]int{20, 100, 400, 1500, 6000}[w.Choose(simrt.StreamFault, 5)])
+			}
 		}
 		remaining := nClients
 		for ci := 0; ci < nClients; ci++ {
@@ -495,6 +581,47 @@ func runConc(plan *Plan, tape *simrt.Tape) *Outcome {
 					x.injReq = false
 				}
 			})
+		}
+		w.GoHarness("slowreader", func() {
+			for {
+				w.WaitCond("slow-reader-wait", func() bool { return x.slowKey >= 0 || stopInj })
+				if x.slowKey < 0 {
+					return
+				}
+				k := x.slowKey
+				x.doOp(91, Op{ID: 900000 + x.slowN, Kind: "get", K: k})
+				x.slowStalled = true // (the read may have ended without reaching a data read)
+				x.slowKey = -1
+				x.out.probe("reader-placed-in-gc-window")
+			}
+		})
+		prevHook := w.StallHook
+		w.StallHook = func(site string) int64 {
+			if x.slowKey >= 0 && !x.slowStalled && w.CurName() == "slowreader" && (site == "GetRecordByOffset" || site == "readRecordAtPath") {
+				// index lookup done (old position in hand): let the pass run on for a drawn while
+				x.out.probe("fault:reader-stalled-between-index-lookup-and-data-read")
+				c := w.Choose(simrt.StreamFault, 10)
+				x.slowStalled = true
+				if c < 5 {
+					return int64([]int{30, 120, 500, 2000, 8000}[c])
+				}
+				if c >= 7 && x.slowPath != "" {
+					// stalled until the pass has written something over the old position (or has ended)
+					w.WaitCond("slow-reader-stalled", func() bool { return x.slowCovered || !x.gcRunning() })
+					if x.slowCovered {
+						x.out.probe("slow-reader-resumed-after-position-was-overwritten")
+					}
+					return 0
+				}
+				// stalled until the pass has relocated c-4 more records (or has ended)
+				target := x.gcWrites + int64(c-4)
+				w.WaitCond("slow-reader-stalled", func() bool { return x.gcWrites >= target || !x.gcRunning() })
+				return 0
+			}
+			if prevHook != nil {
+				return prevHook(site)
+			}
+			return 0
 		}
 		defer func() { stopInj = true }()
 		envDone := false
@@ -632,7 +759,10 @@ func (x *concExec) runEnv(env []Op) {
 				x.gcTasks = append(x.gcTasks, n)
 				idx := len(x.gcTasks) - 1
 				w.TagNext = "gc"
-				_, _, err := g.H.GC(op.GCBucket, op.GCStart, op.GCEnd, op.GCDays, op.Merge, false)
+				_, _, err := gcRequest(g, x.plan.Cfg.GCWeb, op.GCBucket, op.GCStart, op.GCEnd, op.GCDays, op.Merge, false)
+				if x.plan.Cfg.GCWeb {
+					x.out.probe("gc-request-via-web-handler")
+				}
 				w.TagNext = ""
 				if err == nil {
 					x.gcAccepted++
@@ -662,7 +792,7 @@ func (x *concExec) runEnv(env []Op) {
 				do()
 			}
 		case "cancelgc":
-			g.H.CancelGC(op.GCBucket)
+			gcCancel(g, x.plan.Cfg.GCWeb, op.GCBucket)
 			x.out.probe("gc-cancel-requested")
 		}
 	}
@@ -846,6 +976,7 @@ func (x *concExec) checkHistory() {
 		if h.Err != "" {
 			if h.InGC && (h.Kind == "get" || h.Kind == "meta") && x.plan.Prop != "C04" && !bytes.Contains([]byte(h.Err), []byte("value")) {
 				x.degraded++
+				x.out.probe("degraded-read:" + errClass(h.Err))
 				continue
 			}
 			rule := "R-read-error"
@@ -859,9 +990,10 @@ func (x *concExec) checkHistory() {
 			return
 		}
 		if h.InGC && h.OutMiss && (h.Kind == "get" || h.Kind == "meta") && x.plan.Prop != "C04" {
-			// a read overlapping an active pass may miss (position moved under the reader)
-			x.degraded++
-			continue
+			// A read overlapping an active pass may *fail* (position moved under the reader:
+			// an error is not a value). A miss, however, tells the client that the key does not
+			// exist: it is checked like any other read (legal only if "absent" linearises).
+			x.out.probe("miss-during-gc-checked")
 		}
 		in := regIn{Kind: h.Kind, WID: h.WID}
 		if h.Kind == "set" {
@@ -958,4 +1090,20 @@ func init() {
 			return runSeq(p, tape)
 		},
 	}
+}
+
+// errClass reduces an error text to its shape (digits and quoted parts removed) for probes.
+func errClass(e string) string {
+	var b []byte
+	for i := 0; i < len(e) && len(b) < 48; i++ {
+		c := e[i]
+		if c >= '0' && c <= '9' {
+			continue
+		}
+		if c == '/' || c == '"' || c == '(' {
+			break
+		}
+		b = append(b, c)
+	}
+	return strings.TrimSpace(string(b))
 }
